@@ -59,7 +59,7 @@ PROPS = {
     ),
     'C03': dict(
         components=[(V, 'l1_semantics', {})] + [(V, 'u1_overlap', {}),
-                    sem('std', 'ov,spans'), sem('std', 'ov', families='deep,bytes')],
+                    sem('std', 'ov,spans'), sem('std', 'ov', families='deep,bytes'), b('pc', aspects='ov', mode='api')],
         level_text='Proof (Verus): every call of the real try_find_overlapping_fwd(_imp) on an OverlappingState reports the head of ov_remaining(state) (abstraction function over id/at/next_match_index) and leaves its tail, or reports None forever once it is empty — for all call-history prefixes, haystacks, spans. Bounded stand-in: the listing equals all occurrences exactly once in (end, longer-first, id) order on the real builders.',
         level_note=LEMMA_NOTE + COMMON_NOTE,
     ),
@@ -92,7 +92,7 @@ PROPS = {
     ),
     'C09': dict(
         components=[(V, 'u1_search', {}), (V, 'u1_overlap', {}), (V, 'u1_iter', {}),
-                    sem('std,lf,ll', 'find,iter,anch,ovanch,spans'), sem('std,lf,ll', 'find,iter,anch,ovanch', families='wide,deep', cfgs='low'), sem('std,lf,ll', 'find,iter,anch', families='wide', cfgs='top')],
+                    sem('std,lf,ll', 'find,iter,anch,ovanch,spans'), sem('std,lf,ll', 'find,iter,anch,ovanch', families='wide,deep', cfgs='low'), sem('std,lf,ll', 'find,iter,anch', families='wide', cfgs='top'), sem('std,lf,ll', 'find,iter,anch,ovanch', families='ci', ci='1', cfgs='low')],
         level_text='Proof (Verus): with an anchored input the search loop keeps only matches starting at input.start (scan with fstart = Some(start)), the overlapping stepper reports exactly the kept matches (state_matches with keep), FindIter is generic in anchoring. Bounded stand-in: anchored results equal the definition restricted to occurrences starting at the span start, for NFAs and DFAs with Anchored/Both start kinds.',
         level_note=COMMON_NOTE,
     ),
